@@ -179,4 +179,382 @@ example : ringPos ⟨1, 1⟩ [⟨0, 0⟩, ⟨4, 0⟩, ⟨0, 4⟩, ⟨0, 0⟩] = 
     windingE (EPt.ofPt ⟨1, 1⟩) [⟨0, 0⟩, ⟨4, 0⟩, ⟨0, 4⟩, ⟨0, 0⟩] ≠ 0 :=
   ringPos_eq_spec _ _ (by simp) (by decide +kernel)
 
+/-! ### 2. `coordinate_position` = `locate`: zero- and one-dimensional types -/
+
+theorem beq_pt_comm (a b : Pt) : (a == b) = (b == a) := by
+  by_cases h : a = b
+  · subst h; rfl
+  · have h' : ¬ b = a := fun e => h e.symm
+    simp [h, h']
+
+/-- `locate` on a geometry without areal members -/
+theorem locateParts_noAreas (pts : List Pt) (curves : List (List Pt)) (p : Pt) :
+    locateParts ⟨pts, curves, []⟩ p =
+      if onAnySeg p (curves.flatMap segs) then
+        (if endpointCount p curves % 2 == 1 then .onBoundary else .inside)
+      else if pts.any (· == p) then .inside else .outside := by
+  simp only [locateParts, Parts.areaSegs, Parts.curveSegs, List.any_nil, List.flatMap_nil, onAnySeg,
+    Bool.false_eq_true, if_false, Bool.or_false]
+  rfl
+
+theorem coordPos_point_eq_locate (q p : Pt) : coordPos (.point q) p = locate (.point q) p := by
+  unfold locate
+  simp only [parts]
+  rw [locateParts_noAreas]
+  simp only [coordPos, calcPos, calcPoint, onAnySeg, endpointCount, List.flatMap_nil, List.any_nil,
+    List.any_cons, Bool.or_false]
+  by_cases h : q = p <;> simp [h, PosAcc.result]
+
+theorem coordPos_multiPoint_eq_locate (qs : List Pt) (p : Pt) :
+    coordPos (.multiPoint qs) p = locate (.multiPoint qs) p := by
+  unfold locate
+  simp only [parts]
+  rw [locateParts_noAreas]
+  simp only [coordPos, calcPos, onAnySeg, List.flatMap_nil, List.any_nil]
+  by_cases h : qs.any (· == p) = true
+  · simp [h, PosAcc.result]
+  · simp [h, PosAcc.result]
+
+/-- end points of one curve equal to `p` (0 for a closed curve) -/
+def epc (p : Pt) (c : List Pt) : Nat :=
+  match c.head?, c.getLast? with
+  | some f, some l => if f == l then 0 else (if p == f then 1 else 0) + (if p == l then 1 else 0)
+  | _, _ => 0
+
+theorem endpointCount_eq_sum (p : Pt) (curves : List (List Pt)) :
+    endpointCount p curves = (curves.map (epc p)).sum := by
+  have h : ∀ n, curves.foldl (fun n c =>
+      match c.head?, c.getLast? with
+      | some f, some l => if f == l then n else n + (if p == f then 1 else 0) + (if p == l then 1 else 0)
+      | _, _ => n) n = n + (curves.map (epc p)).sum := by
+    induction curves with
+    | nil => simp
+    | cons c t ih =>
+      intro n
+      simp only [List.foldl_cons, List.map_cons, List.sum_cons]
+      rw [ih]
+      have : (match c.head?, c.getLast? with
+        | some f, some l => if f == l then n else n + (if p == f then 1 else 0) + (if p == l then 1 else 0)
+        | _, _ => n) = n + epc p c := by
+        unfold epc
+        split
+        · split <;> omega
+        · rfl
+      rw [this]; omega
+  unfold endpointCount
+  exact (h 0).trans (by simp)
+
+theorem epc_le_one (p : Pt) (c : List Pt) : epc p c ≤ 1 := by
+  unfold epc
+  split
+  · rename_i f l _ _
+    by_cases hfl : f = l
+    · simp [hfl]
+    · by_cases h1 : p = f
+      · subst h1; simp [hfl]
+      · by_cases h2 : p = l
+        · subst h2; simp [hfl, Ne.symm hfl]
+        · simp [hfl, h1, h2]
+  · omega
+
+theorem lineCoord_left (a b : Pt) : lineCoord a b a = true := (lineCoord_iff _ _ _).mpr (SegMem_left _ _)
+theorem lineCoord_right (a b : Pt) : lineCoord a b b = true := (lineCoord_iff _ _ _).mpr (SegMem_right _ _)
+theorem lineCoord_degenerate (a p : Pt) : lineCoord a a p = true ↔ p = a := by
+  rw [lineCoord_iff, SegMem_degenerate]
+
+theorem segs_mem {l : List Pt} {s e : Pt} (h : (s, e) ∈ segs l) : s ∈ l ∧ e ∈ l := by
+  induction l with
+  | nil => simp [segs] at h
+  | cons a t ih =>
+    cases t with
+    | nil => simp [segs] at h
+    | cons b rest =>
+      rw [segs] at h
+      rcases List.mem_cons.mp h with h | h
+      · injection h with h1 h2
+        subst h1; subst h2
+        simp
+      · have := ih h
+        exact ⟨List.mem_cons_of_mem _ this.1, List.mem_cons_of_mem _ this.2⟩
+
+/-- bounding-box rejection is sound for point-on-linestring: a point on a segment is inside the
+bounding box of the coordinates -/
+theorem onAnySeg_in_bbox {cs : List Pt} {mn mx p : Pt} (hb : getBoundingRect cs = some (mn, mx))
+    (h : onAnySeg p (segs cs) = true) : rectCoord mn mx p = true := by
+  unfold onAnySeg at h
+  rw [List.any_eq_true] at h
+  obtain ⟨⟨a, b⟩, hm, hl⟩ := h
+  obtain ⟨ha, hb'⟩ := segs_mem hm
+  have hbd := (Geo.Proofs.C19.getBoundingRect_bounds cs mn mx hb).1
+  have ba := hbd a ha
+  have bb := hbd b hb'
+  simp only at hl
+  rw [lineCoord_eq, pointInRect_iff] at hl
+  obtain ⟨_, hx, hy⟩ := hl
+  rw [rectCoord_iff]
+  refine ⟨?_, ?_, ?_, ?_⟩
+  · rcases hx with h | h <;> linarith [ba.1, bb.1]
+  · rcases hx with h | h <;> linarith [ba.2.1, bb.2.1]
+  · rcases hy with h | h <;> linarith [ba.2.2.1, bb.2.2.1]
+  · rcases hy with h | h <;> linarith [ba.2.2.2, bb.2.2.2]
+
+/-- `LineString: Intersects<Coord>` (with its bounding-box early return) is "on some segment". -/
+theorem lineStringCoord_eq (cs : List Pt) (p : Pt) : lineStringCoord cs p = onAnySeg p (segs cs) := by
+  unfold lineStringCoord
+  cases hb : getBoundingRect cs with
+  | none => rfl
+  | some r =>
+    obtain ⟨mn, mx⟩ := r
+    simp only
+    by_cases hr : rectRect mn mx p p = true
+    · simp [hr]; rfl
+    · have hr' : rectRect mn mx p p = false := by simpa using hr
+      simp only [hr', Bool.not_false, if_true]
+      by_contra hne
+      have hon : onAnySeg p (segs cs) = true := by
+        cases h : onAnySeg p (segs cs) with
+        | true => rfl
+        | false => rw [h] at hne; exact absurd rfl hne
+      have := onAnySeg_in_bbox hb hon
+      rw [rectCoord_iff] at this
+      apply hr
+      rw [rectRect_eq]
+      exact ⟨this.2.1, this.2.2.2, this.1, this.2.2.1⟩
+
+theorem epc_eq_one_iff {p f l : Pt} {cs : List Pt} (hf : cs.head? = some f) (hl : cs.getLast? = some l) :
+    epc p cs = 1 ↔ f ≠ l ∧ (p = f ∨ p = l) := by
+  unfold epc
+  rw [hf, hl]
+  simp only
+  by_cases hfl : f = l
+  · simp [hfl]
+  · by_cases h1 : p = f
+    · subst h1; simp [hfl]
+    · by_cases h2 : p = l
+      · subst h2; simp [hfl, Ne.symm hfl]
+      · simp [hfl, h1, h2]
+
+theorem calcLineString_ge3 (cs : List Pt) (p : Pt) (acc : PosAcc) (h : 3 ≤ cs.length) :
+    calcLineString cs p acc =
+      match getBoundingRect cs with
+      | none => acc
+      | some (mn, mx) =>
+        if !rectCoord mn mx p then acc
+        else if !isClosedLS cs && (some p == cs.head? || some p == cs.getLast?) then
+          { acc with bcount := acc.bcount + 1 }
+        else if lineStringCoord cs p then { acc with inside := true }
+        else acc := by
+  match cs, h with
+  | a :: b :: c :: rest, _ => rfl
+
+theorem head_onAnySeg (a b : Pt) (rest : List Pt) : onAnySeg a (segs (a :: b :: rest)) = true := by
+  simp [segs, onAnySeg, lineCoord_left]
+
+theorem last_onAnySeg (a b : Pt) (rest : List Pt) :
+    onAnySeg ((a :: b :: rest).getLast (by simp)) (segs (a :: b :: rest)) = true := by
+  obtain ⟨s', hs'⟩ := segs_last rest a b
+  unfold onAnySeg
+  rw [List.any_eq_true]
+  exact ⟨_, hs', lineCoord_right _ _⟩
+
+/-- The LineString clause of `coordinate_position` for an arbitrary accumulator: one boundary hit
+when `p` is an end point of the open curve, else `inside` when `p` is on a segment. -/
+theorem calcLineString_eq (cs : List Pt) (p : Pt) (acc : PosAcc) :
+    calcLineString cs p acc =
+      if epc p cs = 1 then { acc with bcount := acc.bcount + 1 }
+      else if onAnySeg p (segs cs) then { acc with inside := true } else acc := by
+  match cs with
+  | [] => simp [calcLineString, epc, segs, onAnySeg]
+  | [a] => simp [calcLineString, epc, segs, onAnySeg]
+  | [a, b] =>
+    have hf : [a, b].head? = some a := rfl
+    have hl : [a, b].getLast? = some b := rfl
+    have hs : onAnySeg p (segs [a, b]) = lineCoord a b p := by simp [segs, onAnySeg]
+    rw [hs]
+    show calcLine a b p acc = _
+    unfold calcLine calcPoint
+    by_cases hab : a = b
+    · subst hab
+      have h0 : ¬ epc p [a, a] = 1 := by rw [epc_eq_one_iff hf hl]; simp
+      rw [if_neg h0]
+      by_cases hp : a = p
+      · subst hp; simp [lineCoord_left]
+      · have : ¬ lineCoord a a p = true := by
+          rw [lineCoord_degenerate]; exact fun h => hp h.symm
+        simp [hp, this]
+    · by_cases h1 : p = a ∨ p = b
+      · have h0 : epc p [a, b] = 1 := by rw [epc_eq_one_iff hf hl]; exact ⟨hab, h1⟩
+        rw [if_pos h0]
+        rcases h1 with h1 | h1 <;> simp [hab, h1]
+      · have h0 : ¬ epc p [a, b] = 1 := by rw [epc_eq_one_iff hf hl]; exact fun h => h1 h.2
+        rw [if_neg h0]
+        simp only [not_or] at h1
+        simp [hab, h1.1, h1.2]
+  | a :: b :: c :: rest =>
+    rw [calcLineString_ge3 _ _ _ (by simp)]
+    generalize hcs : a :: b :: c :: rest = cs
+    have hf : cs.head? = some a := by rw [← hcs]; rfl
+    have hne : a :: b :: c :: rest ≠ [] := by simp
+    have hl : cs.getLast? = some ((a :: b :: c :: rest).getLast hne) := by
+      rw [← hcs]; exact List.getLast?_eq_getLast_of_ne_nil hne
+    have hfon : onAnySeg a (segs cs) = true := by rw [← hcs]; exact head_onAnySeg _ _ _
+    have hlon : onAnySeg ((a :: b :: c :: rest).getLast hne) (segs cs) = true := by
+      rw [← hcs]; exact last_onAnySeg _ _ _
+    generalize (a :: b :: c :: rest).getLast hne = l at hl hlon
+    cases hb : getBoundingRect cs with
+    | none =>
+      rw [Geo.Proofs.C19.getBoundingRect_none_iff] at hb
+      rw [hb] at hcs; cases hcs
+    | some r =>
+      obtain ⟨mn, mx⟩ := r
+      simp only
+      have hclosed : isClosedLS cs = decide (a = l) := by
+        unfold isClosedLS; rw [hf, hl]; simp
+      by_cases hrc : rectCoord mn mx p = true
+      · simp only [hrc, Bool.not_true, Bool.false_eq_true, if_false]
+        by_cases h1 : a ≠ l ∧ (p = a ∨ p = l)
+        · have h0 : epc p cs = 1 := (epc_eq_one_iff hf hl).mpr h1
+          rw [if_pos h0, hclosed, hf, hl]
+          have : (!decide (a = l) && (some p == some a || some p == some l)) = true := by
+            rcases h1 with ⟨h1, h2 | h2⟩ <;> simp [h1, h2]
+          rw [if_pos this]
+        · have h0 : ¬ epc p cs = 1 := fun h => h1 ((epc_eq_one_iff hf hl).mp h)
+          rw [if_neg h0, hclosed, hf, hl]
+          have : ¬ (!decide (a = l) && (some p == some a || some p == some l)) = true := by
+            intro h
+            apply h1
+            simpa using h
+          rw [if_neg this, lineStringCoord_eq]
+      · have hrc' : rectCoord mn mx p = false := by simpa using hrc
+        simp only [hrc', Bool.not_false, if_true]
+        have hon : ¬ onAnySeg p (segs cs) = true := fun h => hrc (onAnySeg_in_bbox hb h)
+        have h0 : ¬ epc p cs = 1 := by
+          rw [epc_eq_one_iff hf hl]
+          rintro ⟨_, h | h⟩
+          · exact hon (h ▸ hfon)
+          · exact hon (h ▸ hlon)
+        rw [if_neg h0, if_neg hon]
+
+theorem onAnySeg_of_epc {p : Pt} {cs : List Pt} (h : epc p cs = 1) : onAnySeg p (segs cs) = true := by
+  match cs with
+  | [] => simp [epc] at h
+  | [a] => simp [epc] at h
+  | a :: b :: rest =>
+    have hf : (a :: b :: rest).head? = some a := rfl
+    have hl := List.getLast?_eq_getLast_of_ne_nil (l := a :: b :: rest) (by simp)
+    rw [epc_eq_one_iff hf hl] at h
+    rcases h with ⟨_, h | h⟩
+    · rw [h]; exact head_onAnySeg _ _ _
+    · rw [h]; exact last_onAnySeg _ _ _
+
+theorem result_bcount1 (i : Bool) : PosAcc.result ⟨i, 0 + 1⟩ = .onBoundary := by simp [PosAcc.result]
+theorem result_inside : PosAcc.result ⟨true, 0⟩ = .inside := by simp [PosAcc.result]
+theorem result_outside : PosAcc.result ⟨false, 0⟩ = .outside := by simp [PosAcc.result]
+
+/-- `coordinate_position` of a LineString (any number of coordinates, open or closed) is the
+specification's location. -/
+theorem coordPos_lineString_eq_locate (cs : List Pt) (p : Pt) :
+    coordPos (.lineString cs) p = locate (.lineString cs) p := by
+  unfold locate
+  simp only [parts]
+  rw [locateParts_noAreas, endpointCount_eq_sum]
+  simp only [coordPos, calcPos, List.flatMap_cons, List.flatMap_nil, List.append_nil, List.map_cons,
+    List.map_nil, List.sum_cons, List.sum_nil, Nat.add_zero, List.any_nil]
+  rw [calcLineString_eq]
+  have h1 := epc_le_one p cs
+  by_cases he : epc p cs = 1
+  · have hon : onAnySeg p (segs cs) = true := onAnySeg_of_epc he
+    simp [he, hon, PosAcc.result]
+  · have he0 : epc p cs = 0 := by omega
+    by_cases hon : onAnySeg p (segs cs) = true <;> simp [he0, hon, PosAcc.result]
+
+/-- `coordinate_position` of a Line (degenerate or not): end points are boundary, other points of
+the segment interior. -/
+theorem coordPos_line_eq_locate (a b p : Pt) : coordPos (.line a b) p = locate (.line a b) p := by
+  have h1 : coordPos (.line a b) p = coordPos (.lineString [a, b]) p := by
+    simp only [coordPos, calcPos]; rfl
+  have h2 : locate (.line a b) p = locate (.lineString [a, b]) p := rfl
+  rw [h1, h2, coordPos_lineString_eq_locate]
+
+example : coordPos (.line ⟨0, 0⟩ ⟨2, 2⟩) ⟨1, 1⟩ = .inside := by
+  rw [coordPos_line_eq_locate]; decide +kernel
+
+/-! ### MultiLineString (known finding K9) -/
+
+/-- the MultiLineString fold: members add their boundary hits to the shared counter -/
+theorem mls_fold (p : Pt) (ls : List (List Pt)) (acc : PosAcc) :
+    ls.foldl (fun a cs => calcLineString cs p a) acc =
+      ⟨acc.inside || ls.any (fun cs => decide (epc p cs = 0) && onAnySeg p (segs cs)),
+       acc.bcount + (ls.map (epc p)).sum⟩ := by
+  induction ls generalizing acc with
+  | nil => simp
+  | cons cs t ih =>
+    simp only [List.foldl_cons, List.any_cons, List.map_cons, List.sum_cons]
+    rw [ih, calcLineString_eq]
+    have h1 := epc_le_one p cs
+    by_cases he : epc p cs = 1
+    · simp [he]; omega
+    · have he0 : epc p cs = 0 := by omega
+      by_cases hon : onAnySeg p (segs cs) = true
+      · simp [he0, hon]
+      · simp [he0, hon]
+
+theorem onAnySeg_flatMap (p : Pt) (ls : List (List Pt)) :
+    onAnySeg p (ls.flatMap segs) = ls.any (fun cs => onAnySeg p (segs cs)) := by
+  unfold onAnySeg
+  rw [List.any_flatMap]
+
+theorem sum_epc_zero {p : Pt} {ls : List (List Pt)} (h : (ls.map (epc p)).sum = 0) :
+    ∀ cs ∈ ls, epc p cs = 0 := by
+  induction ls with
+  | nil => simp
+  | cons c t ih =>
+    simp only [List.map_cons, List.sum_cons] at h
+    intro cs hm
+    rcases List.mem_cons.mp hm with h' | h'
+    · rw [h']; omega
+    · exact ih (by omega) cs h'
+
+theorem sum_epc_pos {p : Pt} {ls : List (List Pt)} (h : 0 < (ls.map (epc p)).sum) :
+    ∃ cs ∈ ls, epc p cs = 1 := by
+  induction ls with
+  | nil => simp at h
+  | cons c t ih =>
+    simp only [List.map_cons, List.sum_cons] at h
+    have h1 := epc_le_one p c
+    by_cases hc : epc p c = 1
+    · exact ⟨c, List.mem_cons_self, hc⟩
+    · obtain ⟨cs, hm, he⟩ := ih (by omega)
+      exact ⟨cs, List.mem_cons_of_mem _ hm, he⟩
+
+/-- MultiLineString: when `p` is an end point of at most one open member, the modelled
+`coordinate_position` is the specification's location. (Without the hypothesis: K9.) -/
+theorem coordPos_mls_eq_locate_of_count (ls : List (List Pt)) (p : Pt)
+    (h : endpointCount p ls ≤ 1) :
+    coordPos (.multiLineString ls) p = locate (.multiLineString ls) p := by
+  unfold locate
+  simp only [parts]
+  rw [locateParts_noAreas, onAnySeg_flatMap]
+  rw [endpointCount_eq_sum] at h ⊢
+  simp only [coordPos, calcPos, List.any_nil]
+  rw [mls_fold]
+  simp only [Bool.false_or, Nat.zero_add]
+  by_cases hN : (ls.map (epc p)).sum = 1
+  · obtain ⟨cs, hm, he⟩ := sum_epc_pos (p := p) (ls := ls) (by omega)
+    have : ls.any (fun cs => onAnySeg p (segs cs)) = true := by
+      rw [List.any_eq_true]; exact ⟨cs, hm, onAnySeg_of_epc he⟩
+    simp [hN, this, PosAcc.result]
+  · have hN0 : (ls.map (epc p)).sum = 0 := by omega
+    have hz := sum_epc_zero hN0
+    have : ls.any (fun cs => decide (epc p cs = 0) && onAnySeg p (segs cs)) =
+        ls.any (fun cs => onAnySeg p (segs cs)) := by
+      rw [Bool.eq_iff_iff, List.any_eq_true, List.any_eq_true]
+      constructor
+      · rintro ⟨cs, hm, h⟩; exact ⟨cs, hm, by simpa [hz cs hm] using h⟩
+      · rintro ⟨cs, hm, h⟩; exact ⟨cs, hm, by simpa [hz cs hm] using h⟩
+    rw [this]
+    by_cases hon : ls.any (fun cs => onAnySeg p (segs cs)) = true
+    · simp [hN0, hon, PosAcc.result]
+    · simp [hN0, hon, PosAcc.result]
+
 end Geo.Proofs.Loc
